@@ -1,0 +1,7 @@
+//go:build !verif
+// +build !verif
+
+package osm
+
+// verifPoint is a no-op unless the package is built with the verif tag.
+func verifPoint(ev string, kind byte, id int64) {}
